@@ -342,6 +342,8 @@ func runHandshake(r *h.Run, prop string) {
 	step.Chunk = r.Spec.PI("chunk", 0)
 	step.GapNS = int64(parseDur(r.Spec.P("gap", "0")))
 	sc := &h.Script{Listen: listen, End: r.Spec.P("end", "stay")}
+	holder := parseDur(r.Spec.P("holder", "0"))
+	sc.HolderNS = int64(holder)
 	if e := r.Spec.P("errtext", ""); e != "" {
 		sc.Steps = append(sc.Steps, h.Err(e))
 	}
@@ -352,6 +354,9 @@ func runHandshake(r *h.Run, prop string) {
 	launch := r.Spec.P("launch", "cmd")
 	cl := plugin.NewClient(hsClientConfig(r, c, "/bin/scripted", launch, hsTimeout))
 	ctx := fmt.Sprintf("launch=%s", launch)
+	if holder > 0 {
+		ctx += " pipes-held-by-a-descendant"
+	}
 
 	o := r.Do("Start", hsTimeout+30*time.Second, func() (any, error) {
 		a, err := cl.Start()
@@ -429,6 +434,14 @@ func runHandshake(r *h.Run, prop string) {
 			if !co2.Hung && co2.Err == nil && co2.Val == nil {
 				r.Violate("client-ok-without-client", ctx, "the second Client() call returned (nil, nil)")
 			}
+		}
+	}
+	if holder > 0 {
+		// (as long as a descendant keeps the pipes open the host neither reaps
+		// the plugin nor lets Kill return - upstream behaviour, DESIGN 0.8; Kill
+		// is judged once the descendant is gone)
+		if hp := w.ProcByName("holder"); hp != nil {
+			<-hp.ExitChan()
 		}
 	}
 	// a later Kill returns promptly and cleans up
@@ -559,6 +572,22 @@ func hsSpecs(prop string, seed uint64, confs []hsConf, launches []string) []*k.S
 					out = append(out, sp(prop, fmt.Sprintf("tail/c%d/%s/l%d/t%d", ci, launch, fi, ti), seed, cp(c.params(), "launch", launch, "out", b64(first+"\n"+tail))))
 				}
 			}
+			// a descendant of the plugin keeps its stdout/stderr open for 20 s,
+			// whatever becomes of the plugin itself
+			for hi, hp := range []map[string]string{
+				P("out", b64(valid[:len(valid)/2]), "end", "exit:0"),         // half a line, then the plugin dies
+				P("out", b64(valid[:len(valid)/2]), "end", "stay"),           // half a line, then nothing: timeout
+				P("out", b64(strings.Join(bumped, "|")+"\n"), "end", "stay"), // a refused line
+				P("out", b64("1|1|unix\n"), "end", "exit:1"),                 // too few fields
+				P("out", "", "end", "exit:2", "errtext", "cannot start\n"),   // silent death
+				P("out", b64(valid+"\n"), "end", "stay"),                     // accepted
+			} {
+				pp := cp(c.params(), "launch", launch, "holder", "20s")
+				for kk, v := range hp {
+					pp[kk] = v
+				}
+				out = append(out, sp(prop, fmt.Sprintf("holder/c%d/%s/h%d", ci, launch, hi), seed, pp))
+			}
 			// no output at all
 			for ei, e := range []string{"stay", "exit:0", "exit:2", "closeout", "closeboth"} {
 				out = append(out, sp(prop, fmt.Sprintf("silent/c%d/%s/e%d", ci, launch, ei), seed, cp(c.params(), "launch", launch, "out", "", "end", e, "errtext", "some diagnostics on stderr\n")))
@@ -600,6 +629,9 @@ func hsRandom(prop string, seed uint64, n int, launches []string) []*k.Spec {
 		}
 		if u("listenon", 5) == 0 {
 			pp["listen"] = []string{"", "tcp"}[u("listen", 2)]
+		}
+		if u("holderon", 8) == 0 {
+			pp["holder"] = []string{"3s", "20s", "45s"}[u("holder", 3)]
 		}
 		s := &k.Spec{Seed: sd, Params: pp}
 		if u("noise", 2) == 0 {
